@@ -36,6 +36,14 @@ def word_configs(tier):
         if policy == "latest" or start == 2000:
             cfg["script"] = [["start"], ["append", "n0", "late0", {"time": 0.01}]]
         out.append(cfg)
+    # a consumer at the log end: fetches succeed without returning anything for a while (a success all the same)
+    for limit in (0, 3):
+        cons = {"buffer_size": 200, "request_retry_init_delay": 1.0, "request_retry_max_delay": 30.0,
+                "request_retry_max_attempts": limit, "fetch_max_wait_time": 2000}
+        out.append({"cluster": CLUSTER, "discovery": False, "log": LOG, "magic": 0, "start": "latest",
+                    "processor": "sync", "consumer": cons,
+                    "script": [["start"], ["append", "n0", "late0", {"time": 7.0}]], "menu": MENU,
+                    "timeout_ms": 4000, "horizon_s": 400, "expect_start_failure": True})
     # start from the group's committed position: the OffsetFetch exchange is part of the same retry sequence
     for (init, mx), limit, stored in itertools.product([(0.1, 0.15), (1.0, 30.0)], [0, 3], [None, 1001]):
         cons = {"buffer_size": 200, "request_retry_init_delay": init, "request_retry_max_delay": mx,
